@@ -628,33 +628,51 @@ package machine
 // Negotiation emitters: each runs the handlers of one phase; a Canceled result
 // stops the transition unless the vetoed state is an Auto state of an auto
 // mutation (then only that state is dropped from the target).
+// TargetParallel: TargetIndexes and the cached target list are index-parallel.
+//@ pred TargetParallel(t *Transition) := len(t.TargetIndexes) == len(*t.cacheTargetStates)
+
+// Negotiation emitters, verified: a veto (Canceled handler result) stops the
+// transition, except that an auto mutation only drops the vetoed Auto state
+// from the target (partial acceptance); a manual mutation never edits the target.
 //@ func (t *Transition) emitExitEvents() (r Result)
-//@   trusted negotiation phase (partial auto acceptance edits the cached target): result range, frame and phase only
-//@   requires phase: ghost.phase <= 1
+//@   props C03 C05 C07
+//@   requires nn:     t.Machine != nil && t.Mutation != nil && TargetOK(t) && TargetParallel(t) && !isnil(t.cacheSchema)
+//@   requires exits:  nodup(t.Exits) && (forall j int :: 0 <= j && j < len(t.Exits) ==> !mem(*t.cacheTargetStates, t.Exits[j]))
+//@   requires phase:  ghost.phase <= 1
 //@   ghostset phase := 1
-//@   assigns Transition.latestHandlerToState, Transition.latestHandlerIsEnter, Transition.latestHandlerIsFinal, Transition.TargetIndexes, Transition.cacheTargetStates, Machine.panicCaught, Machine.queue, Machine.queueLen, Machine.queueTicksPending, Machine.logEntries
-//@   ensures target: old(TargetOK(t)) ==> TargetOK(t)
-//@   ensures shrink: forall x string :: mem(*t.cacheTargetStates, x) ==> mem(old(*t.cacheTargetStates), x)
-//@   ensures queue: old(QueueInv(t.Machine)) ==> QueueInv(t.Machine)
-//@   ensures res: r == Executed || r == Canceled
+//@   assigns Transition.latestHandlerToState, Transition.latestHandlerIsEnter, Transition.latestHandlerIsFinal, t.TargetIndexes, t.cacheTargetStates, Machine.panicCaught, Machine.queue, Machine.queueLen, Machine.queueTicksPending, Machine.logEntries, ghost.faults
+//@   ensures res:     r == Executed || r == Canceled
+//@   ensures target:  TargetOK(t) && TargetParallel(t)
+//@   ensures shrink:  forall x string :: mem(*t.cacheTargetStates, x) ==> mem(old(*t.cacheTargetStates), x)
+//@   ensures manual:  !t.Mutation.IsAuto ==> t.cacheTargetStates == old(t.cacheTargetStates) && t.TargetIndexes == old(t.TargetIndexes)
+//@   ensures dropped: forall x string :: mem(old(*t.cacheTargetStates), x) && !mem(*t.cacheTargetStates, x) ==> t.cacheSchema[x].Auto
+//@   ensures queue:   old(QueueInv(t.Machine)) ==> QueueInv(t.Machine)
+//@   ensures faults:  ghost.faults == old(ghost.faults)
+//@   loop 1 invariant inv: TargetOK(t) && TargetParallel(t) && ghost.faults == old(ghost.faults) && (old(QueueInv(t.Machine)) ==> QueueInv(t.Machine))
+//@   loop 1 invariant shrink: forall x string :: mem(*t.cacheTargetStates, x) ==> mem(old(*t.cacheTargetStates), x)
+//@   loop 1 invariant manual: !t.Mutation.IsAuto ==> t.cacheTargetStates == old(t.cacheTargetStates) && t.TargetIndexes == old(t.TargetIndexes)
+//@   loop 1 invariant dropped: forall x string :: mem(old(*t.cacheTargetStates), x) && !mem(*t.cacheTargetStates, x) ==> t.cacheSchema[x].Auto
+
 //@ func (t *Transition) emitEnterEvents() (r Result)
-//@   trusted negotiation phase: result range, frame and phase only
-//@   requires phase: ghost.phase <= 2
+//@   props C03 C05 C07
+//@   requires nn:     t.Machine != nil && t.Mutation != nil && TargetOK(t) && TargetParallel(t) && !isnil(t.cacheSchema)
+//@   requires enters: nodup(t.Enters) && subset(t.Enters, *t.cacheTargetStates)
+//@   requires phase:  ghost.phase <= 2
 //@   ghostset phase := 2
-//@   assigns Transition.latestHandlerToState, Transition.latestHandlerIsEnter, Transition.latestHandlerIsFinal, Transition.TargetIndexes, Transition.cacheTargetStates, Machine.panicCaught, Machine.queue, Machine.queueLen, Machine.queueTicksPending, Machine.logEntries
-//@   ensures target: old(TargetOK(t)) ==> TargetOK(t)
-//@   ensures shrink: forall x string :: mem(*t.cacheTargetStates, x) ==> mem(old(*t.cacheTargetStates), x)
-//@   ensures queue: old(QueueInv(t.Machine)) ==> QueueInv(t.Machine)
-//@   ensures res: r == Executed || r == Canceled
-//@ func (t *Transition) emitSelfEvents() (r Result)
-//@   trusted negotiation phase: result range, frame and phase only
-//@   requires phase: ghost.phase <= 3
-//@   ghostset phase := 3
-//@   assigns Transition.latestHandlerToState, Transition.latestHandlerIsEnter, Transition.latestHandlerIsFinal, Transition.TargetIndexes, Transition.cacheTargetStates, Machine.panicCaught, Machine.queue, Machine.queueLen, Machine.queueTicksPending, Machine.logEntries
-//@   ensures target: old(TargetOK(t)) ==> TargetOK(t)
-//@   ensures shrink: forall x string :: mem(*t.cacheTargetStates, x) ==> mem(old(*t.cacheTargetStates), x)
-//@   ensures queue: old(QueueInv(t.Machine)) ==> QueueInv(t.Machine)
-//@   ensures res: r == Executed || r == Canceled
+//@   assigns Transition.latestHandlerToState, Transition.latestHandlerIsEnter, Transition.latestHandlerIsFinal, t.TargetIndexes, t.cacheTargetStates, Machine.panicCaught, Machine.queue, Machine.queueLen, Machine.queueTicksPending, Machine.logEntries, ghost.faults
+//@   ensures res:     r == Executed || r == Canceled
+//@   ensures target:  TargetOK(t) && TargetParallel(t)
+//@   ensures shrink:  forall x string :: mem(*t.cacheTargetStates, x) ==> mem(old(*t.cacheTargetStates), x)
+//@   ensures manual:  !t.Mutation.IsAuto ==> t.cacheTargetStates == old(t.cacheTargetStates) && t.TargetIndexes == old(t.TargetIndexes)
+//@   ensures dropped: forall x string :: mem(old(*t.cacheTargetStates), x) && !mem(*t.cacheTargetStates, x) ==> t.cacheSchema[x].Auto
+//@   ensures queue:   old(QueueInv(t.Machine)) ==> QueueInv(t.Machine)
+//@   ensures faults:  ghost.faults == old(ghost.faults)
+//@   loop 1 invariant inv: TargetOK(t) && TargetParallel(t) && ghost.faults == old(ghost.faults) && (old(QueueInv(t.Machine)) ==> QueueInv(t.Machine))
+//@   loop 1 invariant shrink: forall x string :: mem(*t.cacheTargetStates, x) ==> mem(old(*t.cacheTargetStates), x)
+//@   loop 1 invariant manual: !t.Mutation.IsAuto ==> t.cacheTargetStates == old(t.cacheTargetStates) && t.TargetIndexes == old(t.TargetIndexes)
+//@   loop 1 invariant dropped: forall x string :: mem(old(*t.cacheTargetStates), x) && !mem(*t.cacheTargetStates, x) ==> t.cacheSchema[x].Auto
+//@   loop 1 invariant rest: forall j int :: idx1 <= j && j < len(t.Enters) ==> mem(*t.cacheTargetStates, t.Enters[j])
+
 //@ func (t *Transition) emitStateStateEvents() (r Result)
 //@   trusted negotiation phase: result range, frame and phase only
 //@   requires phase: ghost.phase <= 4
